@@ -70,6 +70,8 @@ type BatchCase struct {
 	// PrepSets: the node is BUILT with this other concurrency / the other error-handling mode, and its own prep
 	// callback re-configures it (builder methods) to the case's C / Stop: the last setting before the items run wins
 	PrepSets *PrepSets `json:"prep_sets,omitempty"`
+	PostCtxAware bool `json:"post_ctx_aware,omitempty"` // post returns the context's error when it finds the context done (a well-behaved post)
+	TempErrs     bool `json:"temp_errs,omitempty"`     // failing attempts return errors that report Temporary() == true (a "transient" failure is still a failure; a cancelled run is still cancelled)
 }
 
 type PrepSets struct {
@@ -515,6 +517,9 @@ func (b *batchRun) execIdx(ctx context.Context, i int, item any) (any, error) {
 		if b.cs.CtxLike {
 			err = fmt.Errorf("per-attempt timeout (%w): %w", context.DeadlineExceeded, err)
 		}
+		if b.cs.TempErrs {
+			err = tempItemErr{&itemErr{b.nonce, i, a, false}}
+		}
 		b.mu.Lock()
 		b.errs[i] = append(b.errs[i], err)
 		b.mu.Unlock()
@@ -548,6 +553,13 @@ type itemErr struct {
 	Nonce, I, Attempt int
 	FB               bool
 }
+
+// tempItemErr is an itemErr that calls itself transient.
+type tempItemErr struct{ *itemErr }
+
+func (e tempItemErr) Temporary() bool { return true }
+func (e tempItemErr) Timeout() bool   { return false }
+func (e tempItemErr) Unwrap() error   { return e.itemErr }
 
 func (e *itemErr) Error() string {
 	if e.FB {
@@ -663,6 +675,9 @@ func (b *batchRun) post(ctx context.Context, s *flyt.SharedStore, items, results
 	b.record(BEvent{Kind: "post", Item: -1})
 	if b.cs.PostFail {
 		return "", errPostFail
+	}
+	if b.cs.PostCtxAware && ctx.Err() != nil {
+		return "", fmt.Errorf("post gives up: %w", ctx.Err())
 	}
 	if b.cs.Post != nil {
 		return flyt.Action(*b.cs.Post), nil
